@@ -9,8 +9,11 @@ TB = ('Coq 8.16.1 kernel incl. vm_compute (no native_compute); Print Assumptions
 # every checks/cNN.py that defines CHECK with a MANIFEST dict is a claimed property
 import glob, importlib, sys
 sys.path.insert(0, os.path.join(here, 'lib')); sys.path.insert(0, os.path.join(here, 'checks'))
+READY = set(open(os.path.join(here, 'checks', 'ready.txt')).read().split())   # integrated by the coordinator
 CLAIMED = {}
 for f in sorted(glob.glob(os.path.join(here, 'checks', 'c[0-9]*.py'))):
+    if os.path.basename(f)[:-3].upper() not in READY:
+        continue
     mod = importlib.import_module(os.path.basename(f)[:-3])
     chk = getattr(mod, 'CHECK', None)
     if chk is not None and getattr(chk, 'MANIFEST', None) and not getattr(chk, 'DISABLED', False):
